@@ -433,6 +433,9 @@ let dec_op (objs : hostval array) (s : string) : op =
   | "prepare" -> OPrepare (p.(1) <> "noopt")
   | "run" -> ORun (obj (if Array.length p > 1 then int_of_string p.(1) else 0))
   | "exec" -> OExec (obj (if Array.length p > 1 then int_of_string p.(1) else 0))
+  (* pexec:<hex name>,<n>: the host changes its one record in place and passes the same pointer again - for the model a run
+     on a record with these contents (static host type K5) *)
+  | "pexec" -> OExec (dec_host ("K5(" ^ p.(1) ^ ")"))
   | "getvar" -> OGetVar (str_of_string (unhex p.(1)))
   | "dump" -> ODump
   | "badprepare" -> ODump       (* a Prepare that fails leaves the evaluator as it was: a step without effect *)
